@@ -14,9 +14,13 @@ using namespace c16;
 namespace
 {
 // calibrated (worst observed ratio on the pristine tree in brackets, see lib/props.d/c16.py)
-const LD C_UNIT  = 8;   // | |n| - 1 | / eps                       [<= 0.9]
-const LD C_ONPL  = 16;  // |distance of a face corner| / err       [<= 1.2]
-const LD C_SIGN  = 16;  // |margin| of a disagreeing verdict        [<= 1.1]
+// (thorough run: 4e6 frusta x 24 corners / 24 probes, 3e6 frusta x 18 points for FrustumTest, per type)
+const LD C_UNIT   = 16; // | |n| - 1 | / eps                                            [1.40]
+const LD C_ONPL_M = 12; // planes(p,M), FrustumTest: |distance of a face corner| / err      [1.16]
+const LD C_SIGN_M = 8;  // ... error of an evaluated distance / err (decides a sign)        [0.83]
+const LD C_ONPL_0 = 2;  // planes(p): the same two, the model is ~5x more pessimistic there [0.19]
+const LD C_SIGN_0 = 3;  //                                                                  [0.33]
+const LD C_SIGN   = C_SIGN_M;
 
 template <class T>
 std::string
@@ -77,6 +81,7 @@ sub_planes (Ctx& c, uint64_t idx)
     Plane3<T>  pl[6];
     WP         wp;
     const char* fn = WITH_M ? "planes(p,M)" : "planes(p)";
+    const LD    C_ONPL = WITH_M ? C_ONPL_M : C_ONPL_0, C_SIGN = WITH_M ? C_SIGN_M : C_SIGN_0;
     if (WITH_M)
     {
         gen_matrix (r, (int) ((idx >> 6) & 3), base_len (fc), mc);
@@ -113,7 +118,7 @@ sub_planes (Ctx& c, uint64_t idx)
             V3 qw = mc.map (fcn[q]);
             LD d = lib_dist (pl[k], qw), e = wp.err (k, qw, 0), ra = fabsl (d) / e;
             c.eval ();
-            c.worst ("face_corner_distance.ratio", (double) ra, idx, ctxjs);
+            c.worst (k < 4 ? "face_corner_distance.side_planes.ratio" : k == 4 ? "face_corner_distance.near_plane.ratio" : "face_corner_distance.far_plane.ratio", (double) ra, idx, ctxjs);
             if (!(ra <= C_ONPL))
                 c.fail (key<T> (fn, std::string ("corners_of_face_not_on_plane_") + PLANE_NAME[k]), idx, [&] {
                     return Obj ().raw ("case", ctxjs ()).kv ("slot", k).kv ("corner_x", qw.x).kv ("corner_y", qw.y).kv ("corner_z", qw.z).kv ("distance", d).kv ("tol", C_ONPL * e)
@@ -144,6 +149,11 @@ sub_planes (Ctx& c, uint64_t idx)
         for (int kk = 0; kk < 6; ++kk)
             if (!(pl[kk].distanceTo (qT) < 0)) { lib = false; if (libk < 0) libk = kk; }
         c.eval ();
+        {
+            // dense calibration of the sign tolerance: error of the evaluated distance to the decisive plane
+            LD de = fabsl ((LD) pl[which].distanceTo (qT) - wp.dist (which, qw)) / wp.err (which, qw, 0);
+            c.worst ("evaluated_distance_error.ratio", (double) de, idx, ctxjs);
+        }
         if (!generic) c.cls (std::string ("probe_near_plane_") + PLANE_NAME[k]);
         if (fabsl (m) > C_SIGN)
         {
@@ -183,6 +193,8 @@ sub_culling (Ctx& c, uint64_t idx)
     if (!wp.all_ok ()) { c.cls ("skipped_illconditioned_planes"); return; }
     c.cls ("judged_frusta");
     FrustumTest<T> ft (fr, mc.M);
+    Plane3<T>      pl[6]; // only for the calibration record "evaluated_distance_error"
+    fr.planes (pl, mc.M);
     c.nontrivial (hash_combine (fc.hash (), hash_combine (d2u ((double) mc.M[0][1]), d2u ((double) mc.M[3][2]))));
     auto ctxjs = [&] { return Obj ().raw ("frustum", fc.js ()).raw ("matrix", mc.js ()).str (); };
     V3 nc[6];
@@ -201,6 +213,10 @@ sub_culling (Ctx& c, uint64_t idx)
             LD      m = wp.margin (toV3 (qT), 0, &which);
             bool    truth = m < 0, lib = ft.isVisible (qT);
             c.eval ();
+            {
+                LD de = fabsl ((LD) pl[which].distanceTo (qT) - wp.dist (which, toV3 (qT))) / wp.err (which, toV3 (qT), 0);
+                c.worst ("evaluated_distance_error.ratio", (double) de, idx, ctxjs);
+            }
             c.cls (fabsl (m) > C_SIGN ? (truth ? "point_judged_inside" : "point_judged_outside") : "point_undecided_near_boundary");
             if (lib != truth)
             {
@@ -407,8 +423,8 @@ MON_SUB_IDX ((sub_planes<float, false>), "planes_float", 100000, 4000000).req ({
 MON_SUB_IDX ((sub_planes<double, false>), "planes_double", 100000, 4000000).req ({REQ_PL}).over ("as planes_float, double");
 MON_SUB_IDX ((sub_planes<float, true>), "planes_matrix_float", 100000, 4000000).req ({REQ_PL, REQ_M}).over ("as planes_float for planes(p, M), M = identity / rigid / uniformly scaled / non-uniformly positively scaled camera matrix; corners and probes mapped by M");
 MON_SUB_IDX ((sub_planes<double, true>), "planes_matrix_double", 100000, 4000000).req ({REQ_PL, REQ_M}).over ("as planes_matrix_float, double");
-MON_SUB_IDX (sub_culling<float>, "culling_float", 100000, 4000000).req ({REQ_CULL}).over ("random frusta x camera matrices; per plane: 3 points, 4 spheres and 4 boxes with centre at signed distance +-rho(1+-10^-j), j=1..8, from the plane; isVisible(point) == membership; isVisible(object) true if a witness point of it is strictly inside; completelyContains false if a witness point is strictly outside");
-MON_SUB_IDX (sub_culling<double>, "culling_double", 100000, 4000000).req ({REQ_CULL}).over ("as culling_float, double");
+MON_SUB_IDX (sub_culling<float>, "culling_float", 60000, 3000000).req ({REQ_CULL}).over ("random frusta x camera matrices; per plane: 3 points, 4 spheres and 4 boxes with centre at signed distance +-rho(1+-10^-j), j=1..8, from the plane; isVisible(point) == membership; isVisible(object) true if a witness point of it is strictly inside; completelyContains false if a witness point is strictly outside");
+MON_SUB_IDX (sub_culling<double>, "culling_double", 60000, 3000000).req ({REQ_CULL}).over ("as culling_float, double");
 MON_SUB_IDX (sub_lattice<float>, "culling_lattice_float", 24 * 6 * 2 * 16, 24 * 6 * 2 * 512).req ({REQ_LAT}).noscale ().over ("integer orthographic boxes and 45-degree perspective frusta x 24 axis rotations (+ integer translation) x 6 faces: lattice points on the face / one step inside / one step outside, exact arithmetic, no tolerance");
 MON_SUB_IDX (sub_lattice<double>, "culling_lattice_double", 24 * 6 * 2 * 16, 24 * 6 * 2 * 512).req ({REQ_LAT}).noscale ().over ("as culling_lattice_float, double");
 
